@@ -1,6 +1,7 @@
 import QF.Drv.Parse
 import QF.Core.Compare
 import QF.Spec.Render
+import QF.Spec.Sql
 /-
 Driver section "hist": replays a frame-history transcript through the spec.
 Every `R` line (the implementation's observation) is compared with what the
@@ -48,6 +49,10 @@ structure WritePending where
   cols : List Bytes := []
   emptyNull : Bool := false
   wrote : Bool := false
+  sqlEscape : Nat := 0
+  sqlIncr : Bool := false
+  sqlTable : Bytes := []
+  sqlFail : Int := -1
   deriving Inhabited
 
 structure HState where
@@ -563,6 +568,12 @@ def histLine (s : HState) (toks : Array String) : HState × List Msg :=
           let cols ← parseNames
           let en ← bool01
           return (src, ({ src := none, kind := kind, hdr := hdr, cols := cols, emptyNull := en } : WritePending))
+        else if kind == "sql" then
+          let esc ← nat
+          let incr ← bool01
+          let table ← bytes
+          let failExec ← int
+          return (src, ({ src := none, kind := kind, sqlEscape := esc, sqlIncr := incr, sqlTable := table, sqlFail := failExec } : WritePending))
         else return (src, ({ src := none, kind := kind } : WritePending))) toks 1 with
     | .error e => failL "W" e
     | .ok (src, wp) =>
@@ -598,6 +609,45 @@ def histLine (s : HState) (toks : Array String) : HState × List Msg :=
             | none => (s', [{ cls := "OK", op := op, kind := "", detail := "" }])
             | some w => (s', [{ cls := "SPEC-MISMATCH", op := op, kind := "value", detail := s!"{w}: frame {showFrame f} written as {repr (bytesToString out)}" }])
       | none => failL "WO" "bad WO line"
+  | some "WQ" =>
+    match s.wr with
+    | none => failL "WQ" "WQ without W"
+    | some wp =>
+      let s := { s with wr := none }
+      match runP (do
+          let st ← next
+          let k ← nat
+          let stmts ← many k (do
+            let q ← bytes
+            let na ← nat
+            let args ← many na (do
+              let t ← next
+              match cellTok t with
+              | .ok c => return c
+              | .error e => fail e)
+            return (q, args))
+          return (st, stmts)) toks 1 with
+      | .error e => failL "WQ" e
+      | .ok (st, stmts) =>
+        if st == "P" then (s, [{ cls := "SPEC-MISMATCH", op := "tosql", kind := "panic", detail := "ToSQL panicked" }]) else
+        match wp.src with
+        | none =>
+          if st == "E" && stmts.isEmpty then (s, [{ cls := "OK", op := "tosql", kind := "", detail := "" }])
+          else (s, [{ cls := "SPEC-MISMATCH", op := "tosql", kind := "errdiff", detail := "ToSQL on a failed frame did not return an error / executed statements" }])
+        | some f =>
+          let cfg : SqlCfg := { escape := wp.sqlEscape, incrementing := wp.sqlIncr, table := wp.sqlTable }
+          let exp := toSqlS cfg f
+          let same (a b : List (Bytes × List Cell)) : Bool :=
+            a.length == b.length && (List.zip a b).all (fun (x, y) => x.1 == y.1 && x.2.length == y.2.length &&
+              (List.zip x.2 y.2).all (fun (u, v) => u.same v))
+          if wp.sqlFail ≥ 0 then
+            -- the driver fails on statement number sqlFail: an error must be returned; the statements before it are as specified
+            if st != "E" then (s, [{ cls := "SPEC-MISMATCH", op := "sqlfault", kind := "swallowed", detail := s!"the driver failed on statement {wp.sqlFail} but ToSQL reported success" }])
+            else if same (exp.take wp.sqlFail.toNat) stmts then (s, [{ cls := "OK", op := "sqlfault", kind := "", detail := "" }])
+            else (s, [{ cls := "SPEC-MISMATCH", op := "tosql", kind := "value", detail := s!"statements before the failure differ from the spec for {showFrame f}" }])
+          else if st == "E" then (s, [{ cls := "SPEC-MISMATCH", op := "tosql", kind := "errdiff", detail := s!"ToSQL returned an error for {showFrame f}" }])
+          else if same exp stmts then (s, [{ cls := "OK", op := "tosql", kind := "", detail := "" }])
+          else (s, [{ cls := "SPEC-MISMATCH", op := "tosql", kind := "value", detail := s!"ToSQL of {showFrame f}: expected {exp.length} statements like {repr ((exp.head?.map (fun x => bytesToString x.1)).getD "")}, got {stmts.length}: {repr ((stmts.head?.map (fun x => (bytesToString x.1, x.2.map showCell))))}" }])
   | some "WF" =>
     match runP (do
         let _src ← nat
